@@ -234,6 +234,40 @@ MUST_FIRE = [
      "        self.t_ = t\n", "        pass\n"),
     ("biqf-write-back", ["C03"], ["R3"], P + "stream/budgetmanager/_balanced_incremental_quantile_filter.py",
      "                tmp_queried_samples_ += 1\n", "                tmp_queried_samples_ += 1\n                self.queried_samples_ = tmp_queried_samples_\n"),
+    # ---- round 4
+    ("probcover-selector-hoisted", ["C01", "C02"], ["R1.4m", "R2.3"], P + "pool/_prob_cover.py",
+     "        for b in range(batch_size):\n            # Step (ii) in [1]: Remove incoming edges for covered samples.\n"
+     "            is_covered = edges[~is_candidate].any(axis=0)\n            edges[:, is_covered] = False\n"
+     "            # Step (i) in [1]: Query the sample with the highest out-degree.\n"
+     "            utilities[b][is_candidate] = edges[is_candidate].sum(axis=1)\n",
+     "        candidate_indices = np.flatnonzero(is_candidate)\n        for b in range(batch_size):\n"
+     "            is_covered = edges[~is_candidate].any(axis=0)\n            edges[:, is_covered] = False\n"
+     "            utilities[b][candidate_indices] = edges[candidate_indices].sum(axis=1)\n"),
+    ("clip-bound-counts-elements", ["C01", "C02"], ["R1.1", "R2.6"], P + "base.py",
+     "            n_candidates = len(candidates)\n\n        if n_candidates < batch_size:",
+     "            n_candidates = np.size(candidates)\n\n        if n_candidates < batch_size:"),
+    ("annotator-indices-not-deduplicated", ["C01", "C02", "C07"], ["R1.1", "R2.6", "R7.1"], P + "base.py",
+     "annotators = check_indices(annotators, y, dim=1)", "check_indices(annotators, y, dim=1)"),
+    ("iet-scatter-guarded-by-candidates", ["C07"], ["R7.5"], P + "pool/multiannotator/_interval_estimation_threshold.py",
+     "        if mapping is not None:\n            w_utilities = utilities\n",
+     "        if candidates is not None and candidates.ndim == 1:\n            w_utilities = utilities\n"),
+    ("saw-translation-guarded-by-candidates", ["C07"], ["R7.5"], P + "pool/multiannotator/_wrapper.py",
+     "        if mapping is None:\n            return re_val\n", "        if candidates is None or candidates.ndim == 2:\n            return re_val\n"),
+    ("cross-entropy-generator-dropped", ["C06"], ["R6.2"], P + "pool/utils.py",
+     "        reg=true_reg,\n        random_state=random_state,\n        **integration_dict,", "        reg=true_reg,\n        **integration_dict,"),
+    ("iet-model-gets-raw-random-state", ["C05", "C06"], ["R5.1", "R6.4"], P + "pool/multiannotator/_interval_estimation_threshold.py",
+     "            mode=\"upper\",\n            random_state=self.random_state_,", "            mode=\"upper\",\n            random_state=self.random_state,"),
+    ("fourds-shares-callers-mixture", ["C05"], ["R5.3"], [
+        (P + "classifier/_mixture_model_classifier.py", "self.mixture_model_ = deepcopy(self.mixture_model)", "self.mixture_model_ = self.mixture_model"),
+        (P + "pool/_four_ds.py", "            clf = clone(clf).fit(X, y, sample_weight)\n",
+         "            clf = clone(clf).set_params(mixture_model=clf.mixture_model)\n            clf = clf.fit(X, y, sample_weight)\n")]),
+    ("ranvar-update-decays-per-remaining-instance", ["C04"], ["R4.6"], BZ,
+     "        for s in queried:\n            if self.budget_ > self.u_t_ / self.w:\n                if s:\n                    self.theta_ *= 1 - self.s\n                else:\n                    self.theta_ *= 1 + self.s\n        super().update(candidates, queried_indices)\n",
+     "        for i, s in enumerate(queried):\n            if self.budget_ > self.u_t_ / self.w:\n                if s:\n                    self.theta_ *= 1 - self.s\n                else:\n                    self.theta_ *= 1 + self.s\n            super().update(candidates[i:], [0] if s else [])\n"),
+    ("stream-random-counts-index-values", ["C04"], ["R4.6"], P + "stream/_stream_baselines.py",
+     "        self.queried_samples_ += np.sum(queried)\n        # update the random state", "        self.queried_samples_ += np.count_nonzero(queried_indices)\n        # update the random state"),
+    ("periodic-observed-counts-elements", ["C04"], ["R4.6"], P + "stream/_stream_baselines.py",
+     "        self.observed_samples_ += len(queried)\n", "        self.observed_samples_ += np.size(candidates)\n"),
     # ---- C04
     ("fixed-guard-false-path", ["C04"], ["R4.1"], BZ, "                d = False\n", "                pass\n"),
     ("variable-guard-reversed", ["C04"], ["R4.2"], BZ,
@@ -537,7 +571,7 @@ def _run_variant(args):
                 if src.count(old) == count:
                     open(path, "w").write(src.replace(old, new))
                     applied += 1
-        if applied == 0:
+        if applied == 0 or (kind == "fire" and applied != len(edits)):
             return (vid, kind, "skipped", [])
         try:
             v = _violations(prop, tmp)
@@ -555,6 +589,12 @@ def run_for(prop, mod, project):
     base = _violations(prop, root)
     jobs = []
     for spec in MUST_FIRE:
+        if isinstance(spec[3], list):
+            # several cooperating edits: (id, props, rules, [(file, old, new), ...])
+            vid, props, rules, multi = spec[:4]
+            if prop in props:
+                jobs.append((prop, root, "fire", vid, [(r_, o_, n_, 1) for (r_, o_, n_) in multi]))
+            continue
         vid, props, rules, rel, old, new = spec[:6]
         count = spec[6] if len(spec) > 6 else 1
         if prop in props:
